@@ -32,6 +32,13 @@ ALPHA = 'ab, '
 UNI = ['é', 'ß', '中', '\U0001F600', 'İ', 'Σ', ' ', 'ａ']
 
 
+# character -> (lower, upper) by the Unicode SpecialCasing / UnicodeData mappings (not case folding)
+CASE_TABLE = {'\u00df': ('\u00df', 'SS'), '\u017f': ('\u017f', 'S'), '\ufb01': ('\ufb01', 'FI'), '\u0131': ('\u0131', 'I'),
+              '\u00c9': ('\u00e9', '\u00c9'), '\u00e9': ('\u00e9', '\u00c9'), '\u0414': ('\u0434', '\u0414'),
+              '\uff21': ('\uff41', '\uff21'), '\u01c5': ('\u01c6', '\u01c4'), '\u0130': ('i\u0307', '\u0130'),
+              '\u03a9': ('\u03c9', '\u03a9'), '\u1e9e': ('\u00df', '\u1e9e'), '\u0587': ('\u0587', '\u0535\u0552')}
+
+
 def gen_str(rng, maxlen=8, uni=0.1):
     n = rng.choice((0, 1, 2, 3, 4, 5, 6, 8)) if maxlen >= 8 else rng.randrange(maxlen + 1)
     pool = list(ALPHA) + (UNI if rng.random() < uni else [])
@@ -104,6 +111,13 @@ def string_cases(rng):
         v2 = {'s': mixed}
         yield 'toUpper', '$s.toUpper()', v2, lambda: M.to_upper_ascii(mixed)
         yield 'toLower', '$s.toLower()', v2, lambda: M.to_lower_ascii(mixed)
+    # case mapping beyond ASCII (full Unicode lower / upper mapping, not case folding), from a hand-written table
+    ch = rng.choice(sorted(CASE_TABLE))
+    ctx_s = rng.choice(['', 'x', 'Xy']) + ch + rng.choice(['', 'z', 'Z1'])
+    lo = ''.join(CASE_TABLE[c][0] if c in CASE_TABLE else M.to_lower_ascii(c) for c in ctx_s)
+    up = ''.join(CASE_TABLE[c][1] if c in CASE_TABLE else M.to_upper_ascii(c) for c in ctx_s)
+    yield 'toLower-unicode', '$s.toLower()', {'s': ctx_s}, lambda: lo
+    yield 'toUpper-unicode', '$s.toUpper()', {'s': ctx_s}, lambda: up
     args = [gen_str(rng, 2, 0) for _ in range(rng.randrange(0, 4))]
     atext = ', '.join(lit(a) for a in args)
     yield 'startsWith', '$s.startsWith(%s)' % atext, v, (lambda: M.starts_with(s, args) if args else _nomatch_or(False))
@@ -163,6 +177,29 @@ def gen_pattern(rng):
         else:
             parts.append(a)
     return ''.join(parts), ng, names
+
+
+class HostileStr(str):
+    """a str subclass (markup-like host type) whose own methods garble their results"""
+
+    def _bad(self, *a, **kw):
+        return 'HOSTILE'
+    replace = strip = lstrip = rstrip = upper = lower = title = casefold = format = _bad
+
+    def join(self, it):
+        return 'HOSTILE'
+
+    def split(self, *a, **kw):
+        return ['HOSTILE']
+    rsplit = split
+
+    def find(self, *a):
+        return 424242
+    rfind = index = rindex = count = find
+
+    def startswith(self, *a):
+        return True
+    endswith = startswith
 
 
 class Sel:
@@ -327,6 +364,10 @@ class Mon:
             wname, eng, base = self.worlds[0]       # (`=>` builds tuples there)
         self.rec.count('world.' + wname)
         ctx = base.create_child_context()
+        if self.turn % 5 == 0:
+            # the same text held by the host in a str subclass with a will of its own: a string parameter takes its text
+            vars_ = {k: (HostileStr(v) if type(v) is str else v) for k, v in vars_.items()}
+            self.rec.count('world.str-subclass-values')
         for k, v in vars_.items():
             ctx[k] = v
         try:
